@@ -489,7 +489,11 @@ func handleHINCRBY(params internal.HandlerFuncParams) ([]byte, error) {
 		if strings.EqualFold(params.Command[0], "hincrbyfloat") {
 			hash[field] = float64(i) + floatIncrement
 		} else {
-			hash[field] = i + intIncrement
+			sum := i + intIncrement
+			if (intIncrement > 0 && sum < i) || (intIncrement < 0 && sum > i) {
+				return nil, errors.New("increment would overflow")
+			}
+			hash[field] = sum
 		}
 	case float64:
 		f, _ := hash[field].(float64)
